@@ -303,10 +303,93 @@ def restart_run(rebound, img, ops, wd, tag):
             sim.save_to_file(img, step=op[1])
 
 
-def gen_restart_history(rng):
+C07_IMG_FACTORS = {
+    "integrator": ["whfast", "leapfrog", "ias15", "saba", "eos", "janus", "sei", "mercurius", "none", "bs", "trace"],
+    "kind": ["plain", "lazy_vanish", "grow_first", "add_remove", "single_change", "variations"],
+    "write": ["first_snapshot", "first_delta", "later_delta"],
+    "cut": ["head", "link", "body", "END", "trailer", "complete"],
+    "entry": ["create_from_file", "with_messages", "init_from_buffer", "simulation_create_from_file", "python_class"],
+}
+_LAZY = ["ias15", "whfast", "mercurius", "bs", "janus", "trace", "saba", "eos", "sei", "leapfrog"]   # order of ac.gen_history(lazy_arrays)
+
+
+def c07_img_excluded(f, a, g, b):
+    d = {f: a, g: b}
+    integ, kind = d.get("integrator"), d.get("kind")
+    if kind == "variations" and integ is not None and integ not in ("ias15", "leapfrog"):
+        return True      # variational particles: integrators that support every configuration
+    if kind == "lazy_vanish" and integ == "none":
+        return True      # no lazily allocated arrays
+    if kind == "grow_first" and integ in ("none", "leapfrog"):
+        return True      # nothing appears after the first snapshot
+    if kind == "add_remove" and integ == "bs":
+        return True      # BS ODE buffers vs N changes between steps (heap overflow outside the archive code)
+    return False
+
+
+C07_RESTART_FACTORS = {
+    "integrator": ["whfast", "leapfrog", "ias15", "saba", "eos", "janus", "sei", "none"],
+    "write": ["first_delta", "later_delta"],
+    "cut": ["head", "link", "body", "END", "trailer"],
+    "pattern": ["once", "chain2", "chain3"],
+}
+
+
+def c07_archive_history(rng, integ, kind):
+    """archive whose deltas have the content class `kind`, written with `integ`"""
+    if kind == "plain":
+        return gen_restart_history(rng, integ)
+    if kind == "lazy_vanish":
+        h = ac.gen_history(rng, 3, structural="lazy_arrays", variant=6 * _LAZY.index(integ))
+    elif kind == "grow_first":
+        parts = [ac.gen_particle(rng, star=True), ac.gen_particle(rng), ac.gen_particle(rng)]
+        h = dict(init=dict(particles=parts, integrator="none", dt=0.01),
+                 ops=[["snap"], ["integrator", integ], ["steps", 2], ["snap"], ["steps", 1], ["snap"], ["edit", 1, "x", 0.3], ["snap"]],
+                 structural="grow_first", auto=None, tag=None)
+    elif kind == "add_remove":
+        parts = [ac.gen_particle(rng, star=True), ac.gen_particle(rng), ac.gen_particle(rng)]
+        h = dict(init=dict(particles=parts, integrator=integ, dt=0.01),
+                 ops=[["steps", 1], ["snap"], ["add", ac.gen_particle(rng)], ["steps", 1], ["snap"], ["remove", 1], ["snap"], ["steps", 2], ["snap"]],
+                 structural="add_remove", auto=None, tag=None)
+    elif kind == "single_change":
+        h = ac.gen_history(rng, 5, structural="single_change")
+        h["init"]["integrator"] = integ
+        h["ops"] = [o for o in h["ops"] if o[0] != "variation"]
+    else:
+        h = ac.gen_history(rng, 3, structural="variations", variant=(0 if integ == "ias15" else 36) + 18)
+        h["init"]["integrator"] = integ
+    h["c07kind"] = kind
+    return h
+
+
+def cut_class(k, data, fresh):
+    """factor value of a cut point"""
+    n = len(data)
+    if k >= n:
+        return "complete"
+    if k >= n - 12:
+        return "trailer"
+    if k >= n - 28:
+        return "END"
+    if fresh:
+        if k < 64:
+            return "head"
+        pos = 64
+        while pos + 16 <= n:
+            ty, _, size = struct.unpack_from("<IIQ", data, pos)
+            if ty == 125:
+                return "link" if pos <= k < pos + 16 + size else "body"
+            if ty == ac.END:
+                break
+            pos += 16 + size
+        return "body"
+    return "head" if k <= 8 else "link" if k < 12 else "body"
+
+
+def gen_restart_history(rng, integ=None):
     """deterministic history on an integrator that promises bit-wise restarts: ops between snapshots are
     steps / settings / edits (no callbacks)"""
-    integ = rng.choice(RESTARTABLE)
+    integ = integ or rng.choice(RESTARTABLE)
     n0 = rng.randint(2, 4)
     init = dict(particles=[ac.gen_particle(rng, star=True)] + [ac.gen_particle(rng) for _ in range(n0 - 1)],
                 integrator=integ, dt=rng.choice([0.01, 0.02]))
@@ -321,7 +404,7 @@ def gen_restart_history(rng):
             else:
                 ops.append(["edit", rng.randint(0, n0 - 1), rng.choice(["x", "vy"]), rng.uniform(-1, 1)])
         ops.append(["snap"])
-    return dict(init=init, ops=ops, structural=None, auto=None)
+    return dict(init=init, ops=ops, structural=None, auto=None, c07kind="plain")
 
 
 def run(c):
@@ -395,23 +478,43 @@ def _run(c, d, rebound, drv, open_exe, app_exe, W):
     if c.cov["strace"].get("available"):
         dims["tie:strace_write_pattern"] = c.cov["strace"].get("appends_checked", 0)
     t_start = time.time()
-    budget = (20 * 60) if c.thorough else 80
+    budget = (20 * 60) if c.thorough else 125
     narch = 200 if c.thorough else 40
-    nrand = 0 if c.thorough else 48
+    nrand = 0 if c.thorough else 24
     exhaustive_budget = (9 * 60) if c.thorough else 0
     # ------------------------------------------------------------------ archives + crash images
+    img_tracker = ac.PairTracker(C07_IMG_FACTORS, c07_img_excluded)
+    ik_all = [(i_, k_) for i_ in C07_IMG_FACTORS["integrator"] for k_ in C07_IMG_FACTORS["kind"]
+              if not c07_img_excluded("integrator", i_, "kind", k_) and (k_ != "lazy_vanish" or v[0])]
+    SplitMix(777).shuffle(ik_all)
+    nik = len(ik_all) if c.thorough else 19
+    ik = (ik_all + ik_all)[((c.seed - 1) * nik) % len(ik_all):][:nik]
+    # restart array: all pairs of C07_RESTART_FACTORS (no exclusions) + every (write, cut, pattern) triple
+    noexc = lambda *a: False
+    rs_tracker = ac.PairTracker(C07_RESTART_FACTORS, noexc)
+    rs_all = ac.covering_array(C07_RESTART_FACTORS, noexc, SplitMix(20260931), 60)
+    tri = [(w_, c_, p_) for w_ in C07_RESTART_FACTORS["write"] for c_ in C07_RESTART_FACTORS["cut"] for p_ in C07_RESTART_FACTORS["pattern"]]
+    have3 = {(r_["write"], r_["cut"], r_["pattern"]) for r_ in rs_all}
+    rs_all += [dict(integrator=C07_RESTART_FACTORS["integrator"][i_ % 8], write=t_[0], cut=t_[1], pattern=t_[2])
+               for i_, t_ in enumerate(t_ for t_ in tri if t_ not in have3)]
+    nrs = len(rs_all) if c.thorough else 24
+    rs_rows = (rs_all + rs_all)[((c.seed - 1) * nrs) % len(rs_all):][:nrs]
+    pending = {}
+    for r_ in rs_rows:
+        pending.setdefault(r_["integrator"], []).append(r_)
+    c.cov["restart_array_rows"] = dict(total=len(rs_all), this_run=len(rs_rows))
+    triples_done = set()
     ai = 0
     while ai < narch and time.time() - t_start < budget * 0.6:
         rng = c.rng.fork()
-        kind = ai % 5
-        if kind == 4:
-            hist = ac.gen_history(rng, 3, structural="lazy_arrays", variant=6 * (ai // 5))
-        elif kind == 3 and v[0]:
-            hist = ac.gen_history(rng, rng.randint(3, 6), structural=rng.choice(["reset_after_whfast", "remove_all", "shrink_zero_reappear", "grow_first"]))
-        elif kind == 2:
+        if ik:
+            hist = c07_archive_history(rng, *ik.pop(0))
+        elif any(pending.values()):
+            hist = gen_restart_history(rng, max(pending, key=lambda i_: len(pending[i_])))
+        elif ai % 2:
             hist = gen_restart_history(rng)
         else:
-            hist = ac.gen_history(rng, rng.randint(2, 6), structural=("grow_first" if kind == 1 and rng.chance(0.3) else None))
+            hist = ac.gen_history(rng, rng.randint(2, 6), structural=("grow_first" if rng.chance(0.3) else None))
         wd = os.path.join(W, "a%d" % ai)
         os.makedirs(wd)
         rc = ac.fork_run(ac.run_history, rebound, hist, wd, False, True)
@@ -505,6 +608,10 @@ def _run(c, d, rebound, drv, open_exe, app_exe, W):
                     cls = "append:" + ("complete" if full else "offset_next" if 8 < k < 12 else "old-trailer" if k <= 8 else
                                        "new-trailer" if k >= len(data) - 12 else "END" if k >= len(data) - 28 else "delta")
                 cutclass[cls] = cutclass.get(cls, 0) + 1
+                frow = dict(integrator=hist["init"]["integrator"], kind=hist.get("c07kind"),
+                            write=("first_snapshot" if fresh else "first_delta" if j == 1 else "later_delta"), cut=cut_class(k, data, fresh))
+                if view[0] != "died":
+                    img_tracker.add(dict(frow, entry="create_from_file"))
                 dims["cut:" + cls] = dims.get("cut:" + cls, 0) + 1
                 if not fresh:
                     dk = "cut:first_delta_append" if j == 1 else "cut:later_append"
@@ -566,7 +673,10 @@ def _run(c, d, rebound, drv, open_exe, app_exe, W):
                 else:
                     c.corr_break("model verdict %s differs from the real C reader %s (append %d cut %d of %d)" % (mvk, view[:2], j, k, len(data)), rep)
             # every other public C entry point on a sample of the boundary cuts
-            samp = sorted(bset)[:: (2 if c.thorough else 5)]
+            byc = {}
+            for k in sorted(bset):
+                byc.setdefault(cut_class(k, data, fresh), []).append(k)
+            samp = sorted({x for lst in byc.values() for x in ([lst[0], lst[len(lst) // 2], lst[-1]] + (lst[::4] if c.thorough else []))})
             trip = [(os.path.join(wd, "i%d.bin" % k), "-", mode) for k in samp for mode in (1, 2, 3)]
             eres = run_batch(open_exe, trip, perturb=True)
             vmap = {k: view_of(r) for k, r in zip(ks, res)}
@@ -578,6 +688,9 @@ def _run(c, d, rebound, drv, open_exe, app_exe, W):
                 expect = max(want_n, 1 if dc else 0)
                 name = {1: "with_messages", 2: "init_from_buffer", 3: "simulation_create_from_file"}[mode]
                 dims["c_entry:" + name] = dims.get("c_entry:" + name, 0) + 1
+                if er["status"] == 0:
+                    img_tracker.add(dict(integrator=hist["init"]["integrator"], kind=hist.get("c07kind"), entry=name, cut=cut_class(k, data, fresh),
+                                         write=("first_snapshot" if fresh else "first_delta" if j == 1 else "later_delta")))
                 c.count(("c-entry", name, "first" if fresh else "append"))
                 rep = dict(history=hist, append=j, cut=k, of=len(data), entry=name, result=er)
                 if er["status"] != 0 or not er["lines"]:
@@ -597,7 +710,7 @@ def _run(c, d, rebound, drv, open_exe, app_exe, W):
                     if nb != expect or not loads_ok:
                         c.violation("c-entry:" + name, "%s exposes %d snapshots (%s) on a crash image with %d complete ones (append %d cut %d)" % (name, nb, l0, expect, j, k), rep)
             # Python class on the boundary classes (sample)
-            for k in sorted(bset)[:: (1 if c.thorough else 3)]:
+            for k in (sorted(bset) if c.thorough else samp):
                 ip = os.path.join(wd, "i%d.bin" % k)
                 out = os.path.join(wd, "py.json")
                 if os.path.exists(out):
@@ -605,6 +718,9 @@ def _run(c, d, rebound, drv, open_exe, app_exe, W):
                 rc = ac.fork_run(py_open, rebound, ip, final, out)
                 st["py_images"] += 1
                 dims["reader:Python_class"] = dims.get("reader:Python_class", 0) + 1
+                if rc == 0:
+                    img_tracker.add(dict(integrator=hist["init"]["integrator"], kind=hist.get("c07kind"), entry="python_class", cut=cut_class(k, data, fresh),
+                                         write=("first_snapshot" if fresh else "first_delta" if j == 1 else "later_delta")))
                 full = (k == len(data))
                 want_n = (0 if fresh else j) + (1 if full else 0)
                 rep = dict(history=hist, append=j, cut=k, of=len(data), py_rc=rc)
@@ -629,7 +745,10 @@ def _run(c, d, rebound, drv, open_exe, app_exe, W):
                     pass
         # ------------------------------------------------------------------ restart from a crash image
         if hist["init"]["integrator"] in RESTARTABLE and all(o[0] in ("snap", "steps", "set", "edit", "hash", "lrescale", "integrator", "nop") for o in hist["ops"]) and n >= 3:
-            restart_case(c, rebound, drv, open_exe, V, v, hist, wd, n, rng, st)
+            specs = pending.get(hist["init"]["integrator"], [])
+            take, specs[:] = specs[:(len(specs) if c.thorough else 4)], specs[(len(specs) if c.thorough else 4):]
+            for spec in (take or [None]):
+                restart_case(c, rebound, drv, open_exe, V, v, hist, wd, n, rng, st, spec, rs_tracker, triples_done)
         shutil.rmtree(wd, ignore_errors=True)
     # ------------------------------------------------------------------ complete chain + residual tail longer than a snapshot
     for irt in range(12 if c.thorough else 4):
@@ -647,16 +766,32 @@ def _run(c, d, rebound, drv, open_exe, app_exe, W):
         if time.time() - t_start > budget:
             break
         auto_restart_case(c, rebound, open_exe, c.rng.fork(), os.path.join(W, "auto%d" % i), st, dims, i)
+    auto_restart_case(c, rebound, open_exe, c.rng.fork(), os.path.join(W, "autoshort"), st, dims, 0, short=True)
     dims["restart:manual_history"] = st["restarts"] - st["auto_restarts"]
     dims["restart:chain"] = st["chains"]
     dims["restart:model_bytes_equal"] = st["restart_bytes_equal"]
     dims["nofake_trailer_evaluated"] = st["nofake_true"] + st["nofake_false"]
     dims["fake_trailer_replayed"] = 1 if st.get("fake_trailer") else 0
+    ip_, rp_ = img_tracker.report(), rs_tracker.report()
+    c.cov["pairs"] = dict(covered=ip_["covered"] + rp_["covered"], total=ip_["total"] + rp_["total"], excluded=ip_["excluded"] + rp_["excluded"],
+                          crash_images=ip_, restarts=rp_,
+                          restart_triples=dict(covered=len(triples_done), total=len(tri), missing=sorted(set(tri) - triples_done)[:20]))
+    c.cov["pairs_exclusions"] = ["variations x integrator not in {ias15, leapfrog}: the other integrators reject or ignore variational configurations",
+                                 "lazy_vanish x none: no lazily allocated arrays", "grow_first x {none, leapfrog}: no integrator arrays appear after the first snapshot",
+                                 "add_remove x bs: BS ODE buffers overflow on N changes between steps (outside the archive code; C08/C14)",
+                                 "restart factors: integrators without bit-wise restart promise (mercurius, bs, trace) are not restart rows"]
+    if c.thorough:
+        if ip_["covered"] < ip_["total"]:
+            c.broken.append("crash-image factor pairs not covered: %s" % ip_["missing"][:12])
+        if rp_["covered"] < rp_["total"]:
+            c.broken.append("restart factor pairs not covered: %s" % rp_["missing"][:12])
+        if len(triples_done) < len(tri):
+            c.broken.append("restart (write, cut, pattern) triples not covered: %s" % sorted(set(tri) - triples_done)[:12])
     c.cov["dimensions"] = dict(sorted(dims.items()))
     required = ["cut:first:body", "cut:first:END", "cut:first:trailer", "cut:first:complete", "cut:append:old-trailer", "cut:append:offset_next",
                 "cut:append:delta", "cut:append:END", "cut:append:new-trailer", "cut:append:complete", "cut:first_delta_append", "cut:later_append",
                 "reader:C_API", "reader:Python_class", "restart:manual_history", "restart:chain", "restart:auto_interval", "restart:auto_step",
-                "restart:auto_backward", "restart:observed_write_order_first_append", "restart:observed_write_order_later_append",
+                "restart:auto_backward", "restart:auto_interval_short", "restart:observed_write_order_first_append", "restart:observed_write_order_later_append",
                 "tie:strace_write_pattern", "nofake_trailer_evaluated", "fake_trailer_replayed", "archive:array_vanishes",
                 "restart:residual_tail:zeros_link_kept", "restart:residual_tail:zeros_link_cleared", "restart:residual_tail:garbage",
                 "restart:residual_tail:zeros_long", "scale:archive>1024_cut", "c_entry:create_from_file", "c_entry:with_messages",
@@ -696,14 +831,27 @@ def compare_archives(rebound, a, ref, wd):
     return ok, r
 
 
-def restart_case(c, rebound, drv, open_exe, V, v, hist, wd, n, rng, st):
+def pick_cut(rng, cls, n):
+    """byte offset inside the write of an append (old trailer ++ delta ++ END ++ new trailer, n bytes) in cut class cls"""
+    lo, hi = {"head": (0, 8), "link": (9, 11), "body": (12, n - 29), "END": (n - 28, n - 13), "trailer": (n - 12, n - 1)}[cls]
+    lo = max(0, min(lo, n - 1))
+    return rng.randint(lo, max(lo, min(hi, n - 1)))
+
+
+def restart_case(c, rebound, drv, open_exe, V, v, hist, wd, n, rng, st, spec=None, tracker=None, triples=None):
     """crash append j at byte k; restart from the last intact snapshot with the real code, continue the history
     to its end; the final archive must expose the same snapshots as the uninterrupted one.  Chains: crash the
     restarted append again."""
     final = os.path.join(wd, "arch.bin")
-    j = rng.randint(1, n - 1)
+    CUTS = C07_RESTART_FACTORS["cut"]
+    if spec:
+        j = 1 if spec["write"] == "first_delta" else rng.randint(2, n - 1)
+        chain = {"once": 1, "chain2": 2, "chain3": 3}[spec["pattern"]]
+    else:
+        j = rng.randint(1, n - 1)
+        chain = rng.randint(1, 5 if c.thorough else 2)
     img = os.path.join(wd, "restart.bin")
-    chain = rng.randint(1, 5 if c.thorough else 2)
+    rows = []
     cur_before = open(os.path.join(wd, "a%d.bin" % (j - 1)), "rb").read()
     sj = os.path.join(wd, "s%d.bin" % j)
     link = 0
@@ -720,7 +868,12 @@ def restart_case(c, rebound, drv, open_exe, V, v, hist, wd, n, rng, st):
         link += 1
         if link > chain:
             break
-        k = rng.choice([rng.randint(0, len(data) - 1), rng.randint(0, 12), rng.randint(max(0, len(data) - 30), len(data) - 1)])
+        if spec:
+            k = pick_cut(rng, CUTS[(CUTS.index(spec["cut"]) + link - 1) % len(CUTS)], len(data))
+        else:
+            k = rng.choice([rng.randint(0, len(data) - 1), rng.randint(0, 12), rng.randint(max(0, len(data) - 30), len(data) - 1)])
+        rows.append(dict(integrator=hist["init"]["integrator"], write=("first_delta" if j == 1 else "later_delta"), cut=cut_class(k, data, False),
+                         pattern={1: "once", 2: "chain2", 3: "chain3"}.get(chain)))
         cur_before = cur_before[:pos] + data[:k] + cur_before[pos + k:]
         st["chain_links"] += 1
         # NoFakeTrailer, evaluated by the model on the image
@@ -752,6 +905,11 @@ def restart_case(c, rebound, drv, open_exe, V, v, hist, wd, n, rng, st):
     if rc != 0:
         c.violation("restart-died", "restarting from a crash image kills the process (status %s)" % rc, rep)
         return
+    for r_ in rows:       # executed factor values (restart ran to the end)
+        if tracker is not None:
+            tracker.add(r_)
+        if triples is not None and r_["pattern"]:
+            triples.add((r_["write"], r_["cut"], r_["pattern"]))
     ok, det = compare_archives(rebound, img, final, wd)
     if not ok:
         c.violation("restart-differs", "archive after crash (append %d, chain %d) + restart differs snapshot-wise from the uninterrupted run: %s" % (j, chain, json.dumps(det)[:300]), rep)
@@ -934,7 +1092,10 @@ def fake_trailer_case(c, rebound, drv, V, wd, st):
             c.violation(K_FAKE, "restart from a crash image whose last 28 bytes imitate END + trailer appends behind the interrupted write: %s" % json.dumps(det)[:200], st["fake_trailer"])
 
 
-def auto_restart_case(c, rebound, open_exe, rng, wd, st, dims, idx):
+K_DUP = "cadence:lagging-next-duplicate"
+
+
+def auto_restart_case(c, rebound, open_exe, rng, wd, st, dims, idx, short=False):
     """automatic cadence: uninterrupted run vs crash in the middle + restart (cadence state is persisted)"""
     os.makedirs(wd, exist_ok=True)
     integ = rng.choice(["whfast", "leapfrog", "saba", "eos", "janus"])
@@ -943,6 +1104,8 @@ def auto_restart_case(c, rebound, open_exe, rng, wd, st, dims, idx):
     dt = -0.01 if back else 0.01
     val = abs(dt) * rng.choice([2.0, 3.0, 5.5]) if mode == "interval" else rng.randint(2, 5)
     tmax = dt * rng.randint(30, 60)
+    if short:          # interval shorter than the step: the persisted prescribed time lags behind t
+        mode, val, tmax = "interval", abs(dt) * 0.4, dt * rng.randint(8, 14)
     parts = [ac.gen_particle(rng, star=True)] + [ac.gen_particle(rng) for _ in range(2)]
     full = os.path.join(wd, "full.bin")
 
@@ -987,7 +1150,7 @@ def auto_restart_case(c, rebound, open_exe, rng, wd, st, dims, idx):
     rc = ac.fork_run(restart)
     st["auto_restarts"] += 1
     c.count(("auto-restart", mode, integ, back))
-    dims["restart:auto_" + mode] = dims.get("restart:auto_" + mode, 0) + 1
+    dims["restart:auto_" + mode + ("_short" if short else "")] = dims.get("restart:auto_" + mode + ("_short" if short else ""), 0) + 1
     if back:
         dims["restart:auto_backward"] = dims.get("restart:auto_backward", 0) + 1
     rep = dict(integrator=integ, mode=mode, value=val, tmax=tmax, particles=parts, crashed_blob=j, cut=k, rc=rc)
@@ -995,7 +1158,10 @@ def auto_restart_case(c, rebound, open_exe, rng, wd, st, dims, idx):
         c.violation("auto-restart-died", "restart of an automatic archive from a crash image kills the process (status %s)" % rc, rep)
         return
     ok, det = compare_archives(rebound, img, full, wd)
-    if not ok:
+    if not ok and short and det.get("n") and det["n"][0] == det["n"][1] + 1:
+        c.violation(K_DUP, "automatic archive (interval %g < |dt| %g) after crash (blob %d, cut %d) + restart has %d snapshots, the uninterrupted run %d: the "
+                    "restarted run writes the snapshot it was restarted from a second time" % (val, abs(dt), j, k, det["n"][0], det["n"][1]), rep)
+    elif not ok:
         c.violation("auto-restart-differs", "automatic archive after crash (blob %d, cut %d) + restart differs from the uninterrupted run: %s" % (j, k, json.dumps(det)[:300]), rep)
     else:
         st["restart_equal"] += 1
